@@ -40,7 +40,7 @@ FAMS = ['OO', 'OI', 'IO', 'LO', 'OL', 'UO', 'QO', 'OU', 'OQ']
 
 
 def must_see(tier):
-    m = {'ledger-checks': 20000, 'teardown-checks': 100, 'node-census': 100,
+    m = {'long-chain:clear': 2, 'long-chain:del': 2, 'ledger-checks': 20000, 'teardown-checks': 100, 'node-census': 100,
          'valgrind:evaluations': 500, 'cycle-collections': 300,
          'resolve-with-successor': 10,
          'c:dbops:ledger-checks': 300, 'c:dbops:sweep-inside-load': 100,
@@ -103,6 +103,11 @@ def plan(tier, seed):
                           variant='asanr', timeout=600,
                           reentry_action=_f['acts'][0],
                           reentry_trigger=_f['trigger']))
+    # destruction of a VERY long leaf chain: releasing the nodes must not
+    # recurse once per leaf (the C stack is finite)
+    specs.append(dict(label='long-chain', family='OO', long_chain=True,
+                      leaves=400000 if q else 1500000, seed=seed, tier=tier,
+                      variant='plain', timeout=1800 if q else 7200))
     # valgrind memcheck on the monitor build: reads of uninitialised memory
     # and intra-object overruns that ASan's red zones cannot see (~50x: a
     # few histories only)
@@ -238,6 +243,8 @@ def run_shard(spec, rec):
             dbops.run_case(fam, 'c', rng, rec, 'dbops', ledger_mode=True,
                            behaviour=False)
         return
+    if spec.get('long_chain'):
+        return run_long_chain(spec, rec)
     if spec.get('sacrificial'):
         fam_, kind, force = reentry.SACRIFICIAL[spec['case']]
         for ci in range(4):
@@ -275,6 +282,65 @@ def node_census(fam):
     mod = sys.modules[fam.cls('BTree', 'c').__module__]
     return sum(1 for o in gc.get_objects()
                if type(o).__module__ == mod.__name__)
+
+
+def run_long_chain(spec, rec):
+    """Trees with one key per leaf and hundreds of thousands of leaves are
+    emptied and destroyed in every way there is; the leaf chain must be taken
+    apart iteratively."""
+    n = spec['leaves']
+    for famname, kind in (('OO', 'BTree'), ('II', 'TreeSet'), ('IO', 'BTree')):
+        fam_ = families.get(famname)
+        cls = fam_.cls(kind, 'c')
+        cls.max_leaf_size = 1
+        cls.max_internal_size = 64
+        is_mapping = kind == 'BTree'
+        for how in ('clear', 'del', 'isub', 'setstate', 'pop-all-then-del'):
+            if how == 'isub' and is_mapping:
+                continue
+            rec.journal(repr(('long-chain', famname, kind, how, n)))
+            t = cls()
+            if is_mapping:
+                for i in range(n):
+                    t[i] = i
+            else:
+                t.update(range(n))
+            rec.evaluations += 1
+            rec.ev('long-chain:' + how)
+            if how == 'clear':
+                t.clear()
+                ok = len(t) == 0
+            elif how == 'del':
+                del t
+                gc.collect()
+                ok = True
+                t = None
+            elif how == 'isub':
+                t -= t
+                ok = len(t) == 0
+            elif how == 'setstate':
+                small = cls()
+                if is_mapping:
+                    small[1] = 1
+                else:
+                    small.add(1)
+                t.__setstate__(small.__getstate__())
+                ok = len(t) == 1
+            else:
+                for i in range(0, n, 2):
+                    if is_mapping:
+                        del t[i]
+                    else:
+                        t.remove(i)
+                ok = len(t) == n - len(range(0, n, 2))
+                del t
+                gc.collect()
+                t = None
+            if not ok:
+                rec.violation('long-chain-wrong-contents', family=famname,
+                              kind=kind, how=how)
+            del t
+            rec.seen('long-chain', famname, kind, how)
 
 
 def run_history(fam, kind, rng, rec, h):
